@@ -86,6 +86,15 @@ func (g *Gen) seedGenesis(gs *GenesisSpec) {
 		}
 		a.Topics = append(a.Topics, t)
 	}
+	if (g.prop == "C01" || g.prop == "C13" || g.prop == "C08") && r.Chance(map[bool]float64{true: 0.04, false: 0.012}[g.tier == "thorough"]) {
+		g.vlong = true
+		// a very long topic: appends during the run cross the 65535/65536 boundary of the offset encoding
+		ob := g.env.Accs[r.Intn(3)].Addr
+		wb := g.env.Accs[r.Intn(3)].Addr
+		t := AolGenTopic{OwnerHex: hex.EncodeToString(ob), Name: "vlong", Desc: "very long", Bulk: r.Range(65533, 65536)}
+		t.Writers = []AolGenWriter{{AddrHex: hex.EncodeToString(wb), Moniker: "vw", Ts: ts - 100000}}
+		a.Topics = append(a.Topics, t)
+	}
 	if r.Chance(0.15) || (g.prop == "C02" || g.prop == "C13") && r.Chance(0.2) {
 		// an owner with 254-257 topics and a topic with 254-257 writers: counters and listings cross the 255/256 boundary
 		ob := g.env.Accs[3].Addr
@@ -270,6 +279,14 @@ func (g *Gen) boundaryTable() []MsgSpec {
 		out = append(out, M("pnft.TransferDenom", "id", "bd", "sender", o, "receiver", ad))
 		out = append(out, M("pnft.Transfer", "denom", "bd", "id", "t", "sender", o, "receiver", ad))
 		out = append(out, M("pnft.Burn", "denom", "bd", "id", "t", "burner", ad))
+		// every address field of every message type
+		out = append(out, M("pnft.UpdateDenom", "id", "bd", "name", "n2", "updater", ad), M("pnft.DeleteDenom", "id", "bd", "remover", ad),
+			M("pnft.Mint", "denom", "bd", "id", "t", "name", "n", "creator", ad), M("pnft.TransferDenom", "id", "bd", "sender", ad, "receiver", o),
+			M("pnft.Transfer", "denom", "bd", "id", "t", "sender", ad, "receiver", o),
+			M("aol.AddWriter", "topic", "bt", "owner", ad, "writer", w), M("aol.DeleteWriter", "topic", "bt", "owner", ad, "writer", w),
+			M("aol.DeleteWriter", "topic", "bt", "owner", o, "writer", ad), M("aol.AddRecord", "topic", "bt", "owner", o, "writer", ad),
+			MsgSpec{T: "did.Create", F: map[string]string{"did": g.env.Dids[0], "from": ad}, Doc: g.plainDoc(g.env.Dids[0], 0), Proof: &ProofSpec{Key: 0, MethodID: g.env.Dids[0] + "#key1", Seq: "0"}},
+			MsgSpec{T: "did.Update", F: map[string]string{"did": g.env.Dids[0], "from": ad}, Doc: g.plainDoc(g.env.Dids[0], 0), Proof: &ProofSpec{Key: 0, MethodID: g.env.Dids[0] + "#key1", Seq: "cur"}})
 		out = append(out, MsgSpec{T: "did.Deactivate", F: map[string]string{"did": g.env.Dids[0], "from": ad}, Proof: &ProofSpec{Key: 0, MethodID: g.env.Dids[0] + "#key0"}})
 	}
 	// PNFT required fields
